@@ -164,3 +164,25 @@ def _(c):
         T = list(iv[:h]) + val.be_bytes((val.from_be(list(iv[h:])) + i) & mask(8 * h), h)
         c.ensure('appended', land(len(C) == 3, val.eq(C[-1], xor(list(b), E.E_(T))), C[:2] == earlier))
         c.ensure('counter-advanced', val.eq(o.counter.count.ival, (val.from_be(list(iv[h:])) + i + 1) & mask(8 * h)))
+
+@obligation(P, 'dec-loops/step', cls='I', opaque=['absE_*', 'absD_*'], cases={'m': ['ECB', 'CBC'], 'bs': [8, 16]}, funcs=['crysp.mode.ECB.dec', 'crysp.mode.CBC.dec'],
+            note='inductive step of the decryption loop from an ARBITRARY state: ECB appends D(next block read); CBC takes the last block c off the remaining ciphertext and puts D(c) xor (the block before it) in FRONT of the plaintext blocks recovered so far')
+def _(c):
+    from pyvc.sbytes import from_items
+    m, bs = c.case('m'), c.case('bs')
+    E = AbstractCipher(bs)
+    later = [bytes([7] * bs)] * 2                   # plaintext blocks recovered so far (CBC works backwards): irrelevant to the step
+    if m == 'ECB':
+        if c.mode == 'sym': from pyvc.sbytes import SBytesIO
+        blk = c.bytes('c', bs)
+        Pm = SBytesIO(blk) if c.mode == 'sym' else __import__('io').BytesIO(bytes(blk))
+        o = mode.ECB(E); M = list(later)
+        ys, loc = c.loop_body(mode.ECB.dec, 0, {'self': o, 'C': None, 'n': 5, 'p': 0, 'P': Pm, 'M': M, 'b': 1})
+        c.ensure('appended', land(len(M) == 3, val.eq(M[-1], E.D_(blk)), M[:2] == later))
+    else:
+        prev = c.bytes('prev', bs); cur = c.bytes('c', bs); head = c.bytes('head', bs)
+        C = from_items(list(head) + list(prev) + list(cur)) if c.mode == 'sym' else bytes(head) + bytes(prev) + bytes(cur)
+        o = mode.CBC(E, bytes(bs)); M = list(later)
+        ys, loc = c.loop_body(mode.CBC.dec, 0, {'self': o, 'C': C, 'l': bs, 'n': 3, 'p': 0, 'M': M, 'c': None})
+        c.ensure('prepended', land(len(M) == 3, val.eq(M[0], xor(list(prev), E.D_(cur))), M[1:] == later))
+        c.ensure('ciphertext-shortened', val.eq(list(loc['C']), list(head) + list(prev)))
